@@ -62,7 +62,11 @@ def stepItem (s : MSt) : TItem → MSt
     match o with
     | .result op r =>
       let s1 := { s with live := s.live.filter (fun x => !(x == op)) }
-      if s.closed && !failing r then fail s1 s!"operation {op} completed successfully after close" else s1
+      -- the documented `None` of a cancelled metadata load is what close() makes of a load it interrupts:
+      -- not a failure (full-strength rule, known finding)
+      let s2 := if s.closed && r == .okNone
+        then { s1 with bootFails := s1.bootFails ++ ["a metadata load interrupted by close completed with None instead of failing"] } else s1
+      if s.closed && !failing r then fail s2 s!"operation {op} completed successfully after close" else s2
     | .raised op _ => { s with live := s.live.filter (fun x => !(x == op)) }
     | .mk k _ _ _ => if s.closed then fail s s!"request {k} issued after close" else s
     | .bcNew b _ _ _ => if s.closed then fail s s!"broker client {b} created after close" else s
@@ -80,7 +84,8 @@ def stepItem (s : MSt) : TItem → MSt
     | _ => s
   | .dump c =>
     if s.closed && !Afkak.Monitor.C08.allInvalid c then fail s "metadata survives close" else
-    if s.closed && !c.clients.isEmpty then fail s "clients survive close" else s
+    if s.closed && !c.clients.isEmpty then fail s "clients survive close" else
+    if s.closed && !c.partMeta.isEmpty then fail s "partition metadata survives close" else s
   | .net what => if s.closed then fail s s!"network activity after close: {what}" else s
   | .bootGone j => { s with bootGone := s.bootGone ++ [j] }
   | _ => s
